@@ -175,6 +175,23 @@ func (vc *VC) query(o *Obligation, produceModels bool) string {
 	}
 	add(o.PC)
 	add(o.Goal)
+	if _, ok := vc.defs["pf_time_Time_UnixNano"]; ok {
+		var extra []ModelVar
+		for _, mv := range o.Inputs {
+			if mv.Type != nil && mv.Type.String() == "time.Time" && !strings.HasSuffix(mv.Name, "#nano") {
+				extra = append(extra, ModelVar{Name: mv.Name + "#nano", Term: sx("pf_time_Time_UnixNano", mv.Term), Type: types.Typ[types.Int64]})
+			}
+		}
+		have := map[string]bool{}
+		for _, mv := range o.Inputs {
+			have[mv.Name] = true
+		}
+		for _, e := range extra {
+			if !have[e.Name] {
+				o.Inputs = append(o.Inputs, e)
+			}
+		}
+	}
 	for _, mv := range o.Inputs {
 		add(mv.Term)
 	}
